@@ -1,0 +1,90 @@
+//go:build verif
+
+package reactor
+
+// Contracts for govc (see /verif/DESIGN.md §6 and §8 C12). Comment-only file: adds no code.
+//
+// Owicki–Gries over atomic actions. Shared abstract state: the token pool (len/cap), the
+// state table (key set + card), the input channel, and five ghost counters that say where
+// every token and every tracked seed currently is:
+//   pendIns  tokens taken by an insert whose seed is not yet in the table
+//   pendFin  seeds removed from the table whose token is not yet given back
+//   pendSend seeds in the table that their inserter has not yet put on the input channel
+//   transit  seeds taken from the input channel by run() and not yet forwarded
+//   outCnt   seeds that are out in the pipeline (owned by a stage or by the finisher)
+//@ ghost var pendIns int
+//@ ghost var pendFin int
+//@ ghost var pendSend int
+//@ ghost var transit int
+//@ ghost var outCnt int
+
+//@ pred G() = globalReactor != nil ==> (len(globalReactor.tokenPool) == card(globalReactor.stateTable) + pendIns + pendFin && 0 <= len(globalReactor.tokenPool) && len(globalReactor.tokenPool) <= cap(globalReactor.tokenPool) && cap(globalReactor.input) == cap(globalReactor.tokenPool) && cap(globalReactor.tokenPool) >= 1 && pendIns >= 0 && pendFin >= 0 && pendSend >= 0 && transit >= 0 && outCnt >= 0 && card(globalReactor.stateTable) >= 0 && len(globalReactor.input) + transit + outCnt + pendSend == card(globalReactor.stateTable) && globalReactor.tokenPool != nil && globalReactor.input != nil && globalReactor.tokenPool != globalReactor.input)
+//@ pred errs() = ErrReactorNotInitialized != nil && ErrReactorShuttingDown != nil && ErrReactorFrozen != nil && ErrFeedbackItemNotPresent != nil && ErrFinisehdItemNotFound != nil
+//@ pred frozen() = closed(done(globalReactor.freezeCtx)) || closed(done(globalReactor.ctx))
+
+// ReceiveInsert: takes a token, then tracks the seed, then queues it.
+//@ func ReceiveInsert
+//@   property C12
+//@   replay reactorInsert
+//@   concurrent G
+//@   local myIns int = 0
+//@   local mySend int = 0
+//@   local stored int = 0
+//@   requires item != nil && item.parent == nil && G() && errs()
+//@   requires [fresh-id] !tracked(globalReactor.stateTable, item.id) // ownership: the caller inserts a seed that is not in flight
+//@   stable [own-ins] pendIns >= myIns && myIns >= 0
+//@   stable [own-send] pendSend >= mySend && mySend >= 0
+//@   stable [own-id] stored == 0 && globalReactor != nil ==> !tracked(globalReactor.stateTable, item.id)
+//@   after selsend(tokenPool)#1: pendIns = pendIns + 1; myIns = 1
+//@   after LoadOrStore(stateTable)#1: pendIns = pendIns - 1; myIns = 0; pendSend = pendSend + 1; mySend = 1; stored = 1
+//@   after send(input)#1: pendSend = pendSend - 1; mySend = 0
+//@   nonblock send(input)#1
+//@   ensures [accounted] myIns == 0 && mySend == 0 // C12: a token is taken exactly when a seed is accepted
+//@   ensures [frozen] old(globalReactor != nil && frozen()) ==> result != nil // C12: once frozen or stopped the reactor accepts nothing further
+
+// ReceiveFeedback: the caller owns a seed that is out in the pipeline (myOut = 1) or feeds
+// back a seed the reactor does not know.
+//@ func ReceiveFeedback
+//@   property C12
+//@   replay reactorFeedback
+//@   concurrent G
+//@   local myOut int = ite(globalReactor != nil && tracked(globalReactor.stateTable, item.id), 1, 0)
+//@   requires item != nil && item.parent == nil && G() && errs()
+//@   requires [owns] globalReactor != nil && tracked(globalReactor.stateTable, item.id) ==> outCnt >= 1
+//@   stable [own-out] outCnt >= myOut && myOut >= 0
+//@   stable [own-id] tracked(globalReactor.stateTable, item.id) == (myOut == 1)
+//@   after selsend(input)#1: outCnt = outCnt - 1; myOut = 0
+//@   nonblock selsend(input)#1
+//@   attr noops tokenPool
+//@   ensures [unknown] old(globalReactor != nil && !tracked(globalReactor.stateTable, item.id)) ==> result != nil // C12: feedback for an unknown seed is rejected
+//@   ensures [fed] result == nil ==> myOut == 0 && old(globalReactor != nil && tracked(globalReactor.stateTable, item.id))
+
+// MarkAsFinished: removes the seed and gives its token back.
+//@ func MarkAsFinished
+//@   property C12
+//@   concurrent G
+//@   local myOut int = ite(globalReactor != nil && tracked(globalReactor.stateTable, item.id), 1, 0)
+//@   local myFin int = 0
+//@   requires item != nil && G() && errs()
+//@   requires [owns] globalReactor != nil && tracked(globalReactor.stateTable, item.id) ==> outCnt >= 1
+//@   stable [own-out] outCnt >= myOut && myOut >= 0
+//@   stable [own-fin] pendFin >= myFin && myFin >= 0
+//@   stable [own-id] tracked(globalReactor.stateTable, item.id) == (myOut == 1)
+//@   after LoadAndDelete(stateTable)#1: outCnt = ite(opLoaded, outCnt - 1, outCnt); myOut = 0; pendFin = ite(opLoaded, pendFin + 1, pendFin); myFin = ite(opLoaded, 1, 0)
+//@   after recv(tokenPool)#1: pendFin = pendFin - 1; myFin = 0
+//@   nonblock recv(tokenPool)#1
+//@   ensures [released] myFin == 0 && myOut == 0 // C12: given back exactly when that seed is marked finished
+//@   ensures [repeated] old(globalReactor != nil && !tracked(globalReactor.stateTable, item.id)) ==> result != nil // C12: a repeated finish is rejected
+//@   ensures [finished] old(globalReactor != nil && tracked(globalReactor.stateTable, item.id)) ==> result == nil
+
+// run: forwards every seed from the input channel to the output channel.
+//@ func (*reactor).run
+//@   property C12
+//@   concurrent G
+//@   local myTransit int = 0
+//@   requires r != nil && r == globalReactor && G() && r.output != r.input && r.output != r.tokenPool
+//@   stable [own-transit] transit >= myTransit && myTransit >= 0
+//@   stable [same] r == globalReactor
+//@   after selrecv(input)#1: transit = ite(opOk, transit + 1, transit); myTransit = ite(opOk, 1, 0)
+//@   after selsend(output)#1: transit = transit - 1; myTransit = 0; outCnt = outCnt + 1
+//@   loop for invariant [idle] myTransit == 0 && r == globalReactor && r.output != r.input && r.output != r.tokenPool
